@@ -213,9 +213,14 @@ opt-level = 3
                     exp = sp.get("expansion")
                     if exp and exp.get("span"):
                         walk([exp["span"]])
-            walk(msg.get("spans"))
-            for ch in msg.get("children", []):
-                walk(ch.get("spans"))
+            # Attribute by the primary spans only: notes ("similar names exist in ...") may point into
+            # other cases' files.
+            walk([sp for sp in (msg.get("spans") or []) if sp.get("is_primary")])
+            if not files:
+                walk(msg.get("spans"))
+            if not files:
+                for ch in msg.get("children", []):
+                    walk(ch.get("spans"))
             if not files:
                 if "aborting due to" in msg.get("message", "") or "could not compile" in msg.get("message", ""):
                     continue
